@@ -255,10 +255,10 @@ def audit(mods, pid):
 
 # ---------------------------------------------------------------- streams
 
-def run_stream(b, stream, seed, tier, tag):
+def run_stream(b, stream, seed, tier, tag, shard="0/1"):
     outp = os.path.join(SCRATCH, "res-%s-%s-%d-%d.json" % (tag, stream, seed, os.getpid()))
     cmd = [b["harness"], "-stream", stream, "-seed", str(seed), "-tier", tier, "-driver", b["driver"],
-           "-out", outp, "-scratch", SCRATCH]
+           "-out", outp, "-scratch", SCRATCH, "-shard", shard]
     t0 = time.time()
     try:
         rc, o = run(cmd, cwd=HARNESS, timeout=7200 if tier == "thorough" else 1500)
@@ -358,11 +358,13 @@ def main():
             if tier == "thorough":
                 shards = P.get("thorough_shards", {}).get(s, 2)
                 for k in range(shards):
-                    jobs.append((s, seed + 1000 * k))
+                    jobs.append((s, seed + 1000 * k, "%d/%d" % (k, shards)))
             else:
-                jobs.append((s, seed))
+                shards = P.get("quick_shards", {}).get(s, 1)
+                for k in range(shards):
+                    jobs.append((s, seed + 1000 * k, "%d/%d" % (k, shards)))
         with ThreadPoolExecutor(max_workers=min(12, max(1, len(jobs)))) as ex:
-            futs = [ex.submit(run_stream, b, s, sd, tier, pid) for (s, sd) in jobs]
+            futs = [ex.submit(run_stream, b, s, sd, tier, pid, sh) for (s, sd, sh) in jobs]
             stream_runs = [f.result() for f in futs]
     known = load_known()
     evaluations = 0
